@@ -274,6 +274,7 @@ fn forbidden(env: &Env, it: &Item) {
         }
     }
     // ---- G1 slots
+    let proof_u0: Vec<u8> = zk.proof_gen(&b.key.pk, &b.sig, Some(&b.header), Some(&b.ph), Some(&b.msgs), Some(&(0..b.msgs.len()).collect::<Vec<usize>>())).ok().unwrap_or_default();
     for (name, bytes, is_id) in bad_g1() {
         for (k, honest) in [(Kind::Sig, &b.sig), (Kind::BlindSig, &b.bsig)] {
             let mut x = honest.clone(); x[..48].copy_from_slice(&bytes); expect_err(k, "A", name, &x, "octets", dec(zk, k, &x));
@@ -282,6 +283,8 @@ fn forbidden(env: &Env, it: &Item) {
         for (slot, sname) in [(0usize, "Abar"), (1, "Bbar"), (2, "D")] {
             let mut x = b.proof.clone(); x[48 * slot..48 * slot + 48].copy_from_slice(&bytes); expect_err(Kind::Proof, sname, name, &x, "octets", zk.dec_proof(&x));
             if let Some(j) = jsub(Kind::Proof, &["BBSplus", sname], &bytes, false) { expect_err(Kind::Proof, sname, name, &x, "json", zk.octets_of_json(Kind::Proof, &j)); }
+            // the same slot of a proof that hides nothing (272 octets: the shortest shape, a decoder fast path shows here)
+            if proof_u0.len() == 272 { let mut x = proof_u0.clone(); x[48 * slot..48 * slot + 48].copy_from_slice(&bytes); expect_err(Kind::Proof, &format!("{}(U=0)", sname), name, &x, "octets", zk.dec_proof(&x)); }
         }
         if !is_id { let mut x = b.cwp.clone(); x[..48].copy_from_slice(&bytes); expect_err(Kind::Commitment, "C", name, &x, "octets", zk.dec_commitment(&x)); }
     }
